@@ -145,7 +145,7 @@ func GCFacts(rc *RC, files func(string) bool) (map[string][]string, map[string]s
 // calleesIn lists the module-level callees named in a statement (by their rendered name:
 // `$r.foo(`, `foo(`, `%x.foo(` -> foo), skipping error constructors and builtins.
 func calleesIn(n *ir.Node) []string {
-	s := stripFuncLits(n.Head)
+	s := stringLit.ReplaceAllString(stripFuncLits(n.Head), `""`) // text inside string literals names no callee
 	var out []string
 	for i := 0; i < len(s); i++ {
 		if s[i] != '(' || i == 0 {
